@@ -1,5 +1,6 @@
 import XfemmVerif.Lemmas.ConstrainedSystems
 import XfemmVerif.Lemmas.CSparseLemmas
+import XfemmVerif.Lemmas.SparseMultA
 /-!
 # C09 — linear solvers return the solution of the system they were given
 
@@ -10,6 +11,11 @@ Property theorems about `Model/Sparse.lean` (the statement-by-statement model of
 entry set/get/add is exact and symmetric; accumulation by `AddTo` is insertion-order independent;
 `SetValue`, `Periodicity`, `AntiPeriodicity` yield exactly the correspondingly constrained system;
 the CG recurrence residual is the true residual.
+
+*Refinement of the solver loop:* `MultA` — the scatter over the linked upper-triangle rows — is the product with the full symmetric
+matrix read through `Get` (`multA_is_matrix_product`, for the stored form that `Create` / `Put` / `AddTo` establish and keep), hence a
+pass of the model's own `PCGSolve` / `PBCGSolve` body keeps the recurrence residual equal to the true residual
+(`pcgStep_keeps_true_residual`, `pbcgStep_keeps_true_residual`).
 
 *The complex solver* (`Model/CSparse.lean`, the model of `cspars.cpp` without Newton matrices, tied by the `csparse`
 correspondence harness): `Cx K` with the operators of `CComplex` — the C++ product and the scaled division that branches on
@@ -212,6 +218,55 @@ theorem cg_residual_invariant [Field α] {n : ℕ} (A : ℕ → ℕ → α) (b V
     ∀ k < n, (R k - del * mulVec n A P k) = b k - mulVec n A (fun l => V l + del * P l) k :=
   cg_residual_step A b V R P del hR
 
+/-! ## `MultA` is the product with the stored matrix, and the solver's own step keeps `R = b − A V` -/
+section Refinement
+variable {β : Type} [Field β]
+
+/-- **`MultA` computes the product with the full symmetric matrix read through `Get`** — for rows in the stored form that
+    `Create` establishes and `Put` / `AddTo` keep (`create_rowsOk`, `put_rowsOk`): the scatter over the linked upper-triangle rows
+    is `∑ j < n, get M k j · X j` in every component -/
+theorem multA_is_matrix_product (M : LinProb β) (hM : RowsOk M) (X : Array β) (k : Nat) (hk : k < M.n) :
+    vget (multA M X) k = mulVec M.n (get M) (vget X) k := vget_multA M hM X k hk
+
+theorem stored_form_reachable (d bw : Nat) (ops : List (β × Nat × Nat)) (hops : ∀ o ∈ ops, o.2.1 < d ∧ o.2.2 < d) :
+    RowsOk (ops.foldl (fun M o => addTo M o.1 o.2.1 o.2.2) (create (α := β) d bw)) ∧
+      (ops.foldl (fun M o => addTo M o.1 o.2.1 o.2.2) (create (α := β) d bw)).n = d := by
+  have key : ∀ (ops : List (β × Nat × Nat)) (M : LinProb β), WF M → RowsOk M → M.n = d → (∀ o ∈ ops, o.2.1 < d ∧ o.2.2 < d) →
+      RowsOk (ops.foldl (fun M o => addTo M o.1 o.2.1 o.2.2) M) ∧ (ops.foldl (fun M o => addTo M o.1 o.2.1 o.2.2) M).n = d := by
+    intro ops
+    induction ops with
+    | nil => intro M _ hM hn _; exact ⟨hM, hn⟩
+    | cons o t ih =>
+      intro M hW hM hn ho
+      have h1 := ho o (by simp)
+      simp only [List.foldl_cons]
+      exact ih _ (addTo_wf M hW _ _ _) (addTo_rowsOk M hW hM _ _ _ (by rw [hn]; exact h1.1) (by rw [hn]; exact h1.2))
+        (by simpa [addTo] using hn) (fun o' ho' => ho o' (by simp [ho']))
+  exact key ops _ (create_wf d bw) (create_rowsOk d bw) rfl hops
+
+/-- **the step of `PCGSolve` itself keeps the recurrence residual equal to the true residual**: if `R = b − A V` before a pass of
+    the `do … while` body of the model (`pcgStep`: `MultA`, `Dot`, the SSOR preconditioner, the three vector updates), then after
+    it — whatever the preconditioner and the inner products returned -/
+theorem pcgStep_keeps_true_residual (M : LinProb β) (hM : RowsOk M) (lambda : β) (s : CGState β)
+    (hR : ∀ k < M.n, vget s.R k = getB M k - mulVec M.n (get M) (vget s.V) k) :
+    ∀ k < M.n, vget (pcgStep M lambda s).R k = getB M k - mulVec M.n (get M) (vget (pcgStep M lambda s).V) k := by
+  intro k hk
+  have hof : ∀ (f : Fin M.n → β) (j : Nat) (hj : j < M.n), vget (Array.ofFn f) j = f ⟨j, hj⟩ := by
+    intro f j hj; simp [vget, hj]
+  simp only [pcgStep]
+  rw [hof _ k hk, hR k hk, multA_is_matrix_product M hM s.P k hk]
+  have hV : ∀ j ∈ Finset.range M.n,
+      get M k j * vget (Array.ofFn (n := M.n) (fun i => vget s.V i.val +
+        s.res / dot M.n s.P (multA M s.P) * vget s.P i.val)) j =
+      get M k j * vget s.V j + s.res / dot M.n s.P (multA M s.P) * (get M k j * vget s.P j) := by
+    intro j hj
+    rw [hof _ j (Finset.mem_range.1 hj)]; ring
+  unfold mulVec
+  rw [Finset.sum_congr rfl hV, Finset.sum_add_distrib, ← Finset.mul_sum]
+  ring
+
+end Refinement
+
 /-! ## the complex solver (`cspars.cpp`, no Newton matrices) -/
 section Complex
 open XfemmVerif XfemmVerif.Cx
@@ -271,6 +326,29 @@ theorem complex_antiPeriodicity_solves_constrained (M : CSparse.CLinProb K) (hM 
         mulVec M.n (get M) y i - mulVec M.n (get M) y j = getB M i - getB M j) := by
   rw [CSparse.antiPeriodicity_eq]
   exact antiPeriodicity_solves_constrained M hM i j hij hi hj y hy
+
+/-- the same for the complex-symmetric solver: a pass of the `do … while` body of `PBCGSolve` (`pbcgStep`, with the complex
+    product, the SSOR preconditioner with the real relaxation factor and the scaled division) keeps `R = b − A V` -/
+theorem pbcgStep_keeps_true_residual (M : CSparse.CLinProb K) (hM : RowsOk M) (lambda : K) (s : CSparse.BState K)
+    (hR : ∀ k < M.n, vget s.R k = getB M k - mulVec M.n (get M) (vget s.V) k) :
+    ∀ k < M.n, vget (CSparse.pbcgStep M lambda s).R k =
+      getB M k - mulVec M.n (get M) (vget (CSparse.pbcgStep M lambda s).V) k := by
+  intro k hk
+  have hof : ∀ (f : Fin M.n → Cx K) (j : Nat) (hj : j < M.n), vget (Array.ofFn f) j = f ⟨j, hj⟩ := by
+    intro f j hj; simp [vget, hj]
+  simp only [CSparse.pbcgStep]
+  rw [hof _ k hk, hR k hk]
+  have hU : vget (multA M s.P) k = mulVec M.n (get M) (vget s.P) k := multA_is_matrix_product M hM s.P k hk
+  rw [hU]
+  have hV : ∀ j ∈ Finset.range M.n,
+      get M k j * vget (Array.ofFn (n := M.n) (fun i => vget s.V i.val +
+        s.res / dot M.n s.P (multA M s.P) * vget s.P i.val)) j =
+      get M k j * vget s.V j + s.res / dot M.n s.P (multA M s.P) * (get M k j * vget s.P j) := by
+    intro j hj
+    rw [hof _ j (Finset.mem_range.1 hj)]; ring
+  unfold mulVec
+  rw [Finset.sum_congr rfl hV, Finset.sum_add_distrib, ← Finset.mul_sum]
+  ring
 
 /-- the exact instance the correspondence harness runs (`xfemm_model csparse rat`) meets the hypotheses of this section -/
 example : LawfulAbsGt Rat := inferInstance
